@@ -10,10 +10,11 @@ R14.4  discriminated aliases keep their metadata for every Union spelling the ty
 from __future__ import annotations
 
 import ast
-from typing import Set
+from typing import List, Optional, Set
 
 from sa.cfg import CFG, guards
 from sa.model import full, AnalysisError, Repo, calls_in, const_str, dotted, norm, own_nodes
+from sa.match import Locals, match, names_in
 from sa.report import Report
 
 
@@ -24,13 +25,29 @@ def run(repo: Repo, rep: Report, tier: str) -> None:
         raise AnalysisError("anchor vanished: _structure_union")
     cfg = CFG(su.node)
     dom = cfg.dominators()
+    L = Locals(su.node)
     sub0 = f"{conv.relpath}:_structure_union"
-    # the mapped-variant structure call
-    mapped = [n for n in cfg.nodes if n.kind == "stmt" and isinstance(n.ast, ast.Return) and not n.copy and "converter.structure(data, variant)" in norm(n.ast)
-              and any("mapping" in norm(g.ast) and p is True for g, p in guards(cfg, n.id, dom))]
-    rep.require(len(mapped) == 1, f"R14.1: expected one mapped-variant structure call, found {len(mapped)}")
-    seq_loops = [n.id for n in cfg.nodes if n.kind == "iter" and norm(n.ast) in ("dataclass_variants", "other_variants")]
+    # the discriminated region: `for <m> in <union>.__metadata__`
+    mloops = [n for n in own_nodes(su.node) if isinstance(n, ast.For) and isinstance(n.target, ast.Name)
+              and any(isinstance(x, ast.Attribute) and x.attr == "__metadata__" for x in ast.walk(L.inline(n.iter)))]
+    rep.require(len(mloops) == 1, f"R14.1: expected one loop over <union>.__metadata__, found {len(mloops)}")
+    if not mloops:
+        return
+    mloop = mloops[0]
+    mvar = mloop.target.id
+    inside = {id(x) for x in ast.walk(mloop)}
+
+    def is_structure_return(a: ast.AST) -> bool:
+        return isinstance(a, ast.Return) and a.value is not None and any(
+            isinstance(c, ast.Call) and isinstance(c.func, ast.Attribute) and c.func.attr == "structure" for c in ast.walk(a.value))
+
+    mapped = [n for n in cfg.nodes if n.kind == "stmt" and not n.copy and is_structure_return(n.ast) and id(n.ast) in inside]
+    rep.require(len(mapped) == 1, f"R14.1: expected one mapped-variant structure call inside the metadata loop, found {len(mapped)}")
+    # sequential first-success loops: loops outside the metadata loop whose body returns `<converter>.structure(...)`
+    seq_stmts = [n for n in own_nodes(su.node) if isinstance(n, ast.For) and id(n) not in inside and any(is_structure_return(x) for x in ast.walk(n))]
+    seq_loops = [n.id for n in cfg.nodes if n.kind == "iter" and n.stmt in seq_stmts]
     rep.require(len(seq_loops) >= 2, f"R14.1: sequential variant loops not found ({len(seq_loops)})")
+    map_vars = {name for name, _, _ in L.bound_from("ANY_m.get_mapping()")}
     for mnode in mapped:
         # exceptional edge from the mapped structure must only reach raises (never a sequential loop)
         exc_succ = [m for m, lab in cfg.succ[mnode.id] if lab == "exc"]
@@ -42,26 +59,58 @@ def run(repo: Repo, rep: Report, tier: str) -> None:
         else:
             rep.violation("R14.1", sub0 + " mapped variant failure", f"{su.fq}|mapped-failure-falls-through",
                           "when the mapped variant fails to decode control can reach the sequential first-success loop (the payload is retried as another variant)", su.loc(mnode.ast))
-        gs = guards(cfg, mnode.id, dom)
-        presence = [g for g, p in gs if p is True and "property_name" in norm(g.ast) and ("in data" in norm(g.ast) or "data.get" in norm(g.ast))]
-        okp = bool(presence) and all(f"metadata.property_name in data" in norm(g.ast) for g in presence)
+        # presence: every positive guard conjunct that looks at <m>.property_name must be the key-presence test `<m>.property_name in <payload>`
+        conj: List[ast.AST] = []
+        for g, pol in guards(cfg, mnode.id, dom):
+            if g.kind != "test" or pol is not True or id(g.ast) not in inside:
+                continue
+            conj += list(g.ast.values) if isinstance(g.ast, ast.BoolOp) and isinstance(g.ast.op, ast.And) else [g.ast]
+        stop = (mvar,) + tuple(L.params)
+
+        def presence_like(c: ast.AST) -> Optional[bool]:
+            """True: key-presence test; False: a value-based test of the discriminator (get / truthiness); None: unrelated."""
+            ci = L.inline(c, stop=stop)
+            if match("VAR_m.property_name in ANY_d", ci) is not None:
+                return True
+            for x in ast.walk(ci):
+                if isinstance(x, ast.Call) and isinstance(x.func, ast.Attribute) and x.func.attr == "get" and x.args and match("VAR_m.property_name", x.args[0]) is not None:
+                    return False
+            if isinstance(ci, ast.Subscript) and match("VAR_m.property_name", ci.slice) is not None:
+                return False  # `if data[<m>.property_name]:` - truthiness of the value
+            return None
+
+        about = [c for c in conj if presence_like(c) is not None]
+        okp = bool(about) and all(presence_like(c) for c in about)
         if okp:
-            rep.ok("R14.1", sub0 + " discriminator presence test", "`metadata.property_name in data`: a present discriminator (even null) takes the exact path", su.loc(presence[0].ast))
+            rep.ok("R14.1", sub0 + " discriminator presence test", f"`{norm(about[0])}`: a present discriminator (even null) takes the exact path", su.loc(about[0]))
         else:
-            rep.violation("R14.1", sub0 + " discriminator presence test", f"{su.fq}|presence|{[norm(g.ast)[:60] for g in presence]}",
+            rep.violation("R14.1", sub0 + " discriminator presence test", f"{su.fq}|presence|{[norm(c)[:60] for c in about]}",
                           "the discriminated path is entered on something other than key presence: a payload whose discriminator is present but null/falsy is "
                           "guessed by first-success instead of being rejected as unmapped", su.loc(mnode.ast))
-    # unmapped value raises
-    unm = [n for n in cfg.nodes if isinstance(n.ast, ast.Raise) and "Unknown discriminator value" in norm(n.ast)]
-    if unm and any("mapping" in norm(g.ast) for g, p in guards(cfg, unm[0].id, dom)):
+    # unmapped value raises: a raise inside the metadata loop (not in a handler) guarded by a test on the mapping
+    unm = []
+    for n in cfg.nodes:
+        if isinstance(n.ast, ast.Raise) and not n.copy and id(n.ast) in inside and not any(isinstance(a, ast.ExceptHandler) for a in _ancestors(n.ast)):
+            gs = [g for g, pl in guards(cfg, n.id, dom) if g.kind == "test" and id(g.ast) in inside]
+            if any(set(names_in(g.ast)) & map_vars for g in gs):
+                unm.append(n)
+    if unm:
         rep.ok("R14.1", sub0 + " unmapped value", "a discriminator value absent from a non-empty mapping raises ValueError", su.loc(unm[0].ast))
     else:
         rep.violation("R14.1", sub0 + " unmapped value", f"{su.fq}|unmapped-not-raised", "an unmapped discriminator value no longer raises", su.loc())
 
     # ---------------------------------------------------------------- R14.2 first-success loops
-    for lid in seq_loops:
-        loop = cfg.nodes[lid].stmt
-        if norm(cfg.nodes[lid].ast) != "dataclass_variants":
+    # the dataclass-variant list = the list that receives `.append(x)` under an `is_dataclass(x)` test
+    dc_lists = set()
+    for n in cfg.nodes:
+        if n.kind == "stmt" and n.ast is not None:
+            for c in calls_in(n.ast):
+                if isinstance(c.func, ast.Attribute) and c.func.attr == "append" and isinstance(c.func.value, ast.Name):
+                    if any(pl is True and "is_dataclass(" in norm(g.ast) for g, pl in guards(cfg, n.id, dom) if g.kind == "test"):
+                        dc_lists.add(c.func.value.id)
+    rep.require(len(dc_lists) >= 1, "R14.2: the list of dataclass variants was not found")
+    for loop in seq_stmts:
+        if not (isinstance(loop.iter, ast.Name) and L.root(loop.iter.id) in dc_lists):
             continue
         body_txt = full(loop)
         rejects_extra = "forbid_extra_keys" in body_txt or "fields(" in body_txt and "keys()" in body_txt
@@ -80,10 +129,16 @@ def run(repo: Repo, rep: Report, tier: str) -> None:
         if fn is None:
             raise AnalysisError(f"anchor vanished: {mname}")
         txt = full(fn.node)
-        uses_set = any(isinstance(c.func, ast.Name) and c.func.id in ("set", "frozenset", "sorted") and c.args and "type" in norm(c.args[0]) for c in calls_in(fn.node))
-        ordered = "dict.fromkeys(" in txt or (not uses_set and "seen" in txt)
+        FL = Locals(fn.node)
         loops = [n for n in own_nodes(fn.node) if isinstance(n, ast.For)]
-        spec_order = any(norm(l.iter) in ("schema.one_of", "schema.any_of") for l in loops)
+        spec_loops = [l for l in loops if isinstance(FL.inline(l.iter), ast.Attribute) and FL.inline(l.iter).attr in ("one_of", "any_of")]
+        spec_order = bool(spec_loops)
+        # the list(s) filled in the variant loop
+        filled = {c.func.value.id for l in spec_loops for c in calls_in(l) if isinstance(c.func, ast.Attribute) and c.func.attr == "append" and isinstance(c.func.value, ast.Name)}
+        uses_set = any(isinstance(c.func, ast.Name) and c.func.id in ("set", "frozenset", "sorted") and c.args and (set(names_in(c.args[0])) & filled)
+                       for c in calls_in(fn.node)) or any(isinstance(c.func, ast.Attribute) and c.func.attr == "sort" and isinstance(c.func.value, ast.Name)
+                                                          and c.func.value.id in filled for c in calls_in(fn.node))
+        ordered = not uses_set
         sub = f"{sr.relpath}:{mname} variant order"
         if ordered and not uses_set and spec_order:
             rep.ok("R14.3", sub, "variants are taken in spec order and de-duplicated order-preservingly (dict.fromkeys)", fn.loc())
@@ -93,15 +148,35 @@ def run(repo: Repo, rep: Report, tier: str) -> None:
 
     # ---------------------------------------------------------------- R14.4 alias keeps discriminator metadata
     ra = repo.func("core.writers.python_construct_renderer:PythonConstructRenderer.render_alias")
-    tests = [n for n in own_nodes(ra.node) if isinstance(n, ast.If) and "discriminator" in norm(n.test) and "Union[" in norm(n.test)]
-    rep.require(len(tests) == 1, f"R14.4: expected one discriminator/Union test in render_alias, found {len(tests)}")
+    AL = Locals(ra.node)
+
+    def union_test(c: ast.AST) -> bool:
+        return match("VAR_t.startswith('Union[')", AL.inline(c, stop=tuple(AL.params))) is not None
+
+    tests = [n for n in own_nodes(ra.node) if isinstance(n, ast.If) and any(union_test(c) for c in (
+        n.test.values if isinstance(n.test, ast.BoolOp) and isinstance(n.test.op, ast.And) else [n.test]))]
+    rep.require(len(tests) == 1, f"R14.4: expected one `<target>.startswith('Union[')` test in render_alias, found {len(tests)}")
     for t in tests:
         conj = t.test.values if isinstance(t.test, ast.BoolOp) and isinstance(t.test.op, ast.And) else [t.test]
-        extra = [norm(c) for c in conj if not (norm(c) == "discriminator" or norm(c) == "target_type.startswith('Union[')")]
+
+        def plain(c: ast.AST) -> bool:
+            c = AL.inline(c, stop=tuple(AL.params))
+            return union_test(c) or (isinstance(c, ast.Name) and AL.is_param(c.id)) or match("VAR_p is not None", c) is not None
+
+        extra = [norm(c) for c in conj if not plain(c)]
         sub = f"{ra.module.relpath}:render_alias discriminator metadata condition"
         if not extra:
             rep.ok("R14.4", sub, "metadata is attached whenever a discriminator exists and the target is a Union[...] (incl. `Union[...] | None`)", ra.loc(t))
         else:
-            rep.violation("R14.4", sub, f"{ra.fq}|metadata-condition|{extra}",
+            rep.violation("R14.4", sub, f"{ra.fq}|metadata-condition|{len(extra)}",
                           f"discriminator metadata is attached only under the extra condition(s) {extra}: e.g. a nullable discriminated union "
                           "(`Union[A, B] | None`) silently falls back to first-success decoding", ra.loc(t))
+
+
+def _ancestors(n: ast.AST):
+    from sa.model import parent as _p
+
+    x = _p(n)
+    while x is not None:
+        yield x
+        x = _p(x)
